@@ -2,11 +2,18 @@
    Statements only.  Theorems: the emitted slip counter discipline (`timestamps`) gives
    pairwise distinct (space, time) stamps for ANY sequence of space stamps, one stamp per
    activity in order; the canvas/metrics entry points of the modelled runtime are
-   observation-only (they only allocate or log).  NOT a theorem (hence _partial): stamp
-   injectivity without slip for whole nests and "one activity per update" for whole programs;
-   those are checked on every execution by the recording canvas (tools/props/c16.py). *)
+   observation-only (they only allocate or log).  Third clause at the level of whole nests
+   (Proofs/StampInj.v): for a nest of any depth, any split of the loop ranks into space and
+   time (any order inside each), position or coordinate style chosen per rank, if every loop
+   rank is stamped and every relative coordinate subtracts a level bound by an EARLIER loop
+   (levels looped outermost-to-innermost) then distinct iterations carry distinct
+   (space, time) stamps; both hypotheses are necessary (two `_collides` witnesses).
+   NOT a theorem (hence _partial): that the emitted display statements compute exactly these
+   stamps and "one activity per update" for whole programs; those are checked on every
+   execution by the recording canvas (tools/props/c16.py). *)
 From Coq Require Import String List.
-Require Import TV.Model.Py TV.Model.Rt TV.Model.Interp TV.Proofs.RtFrame TV.Proofs.Spacetime.
+From Coq Require Import ZArith.
+Require Import TV.Model.Py TV.Model.Rt TV.Model.Interp TV.Proofs.RtFrame TV.Proofs.Spacetime TV.Proofs.StampInj.
 Import ListNotations.
 
 Theorem C16_slip_stamps_unique_partial : forall (A : Type) (eq_dec : forall x y : A, {x = y} + {x <> y}) l seen,
@@ -20,3 +27,38 @@ Proof. exact stamps_space. Qed.
 Theorem C16_observation_calls_frame_partial : forall g args kw st v st',
   global_call g args kw st = Ok (v, st') -> frame st st'.
 Proof. exact observation_calls_frame. Qed.
+
+(* every loop rank stamped + every stamp determined by the enclosing loops and injective in its own
+   loop value => the (space, time) stamp determines the iteration; any stamp type *)
+Theorem C16_nest_stamps_injective_partial : forall (S : Type) (stamp : nat -> (nat -> Z) -> S) n space time,
+  (forall i, i < n -> In i (space ++ time)) ->
+  (forall i, i < n -> local_at S stamp i) ->
+  forall its : list (list Z), (forall p, In p its -> length p = n) -> NoDup its ->
+  NoDup (map (fun p => st_stamp S stamp space time (at_ p)) its).
+Proof. exact st_stamp_NoDup. Qed.
+
+(* the emitted stamps: coordinate (relative to an enclosing partition level bound earlier) or
+   position in the fiber the enclosing loops selected, chosen per rank *)
+Theorem C16_emitted_stamps_injective_partial :
+  forall (parent : nat -> option nat) (fiber : nat -> (nat -> Z) -> list Z) (is_pos : nat -> bool) n,
+  (forall i j, parent i = Some j -> j < i) ->
+  (forall i p q, (forall j, j < i -> p j = q j) -> fiber i p = fiber i q) ->
+  forall space time, (forall i, i < n -> In i (space ++ time)) ->
+  forall its : list (list Z), (forall p, In p its -> length p = n /\ runs fiber n (at_ p)) -> NoDup its ->
+  NoDup (map (fun p => st_stamp Z (mixed_stamp parent fiber is_pos) space time (at_ p)) its).
+Proof. exact mixed_st_stamp_NoDup. Qed.
+
+Theorem C16_coord_stamp_local : forall parent i,
+  (forall j, parent i = Some j -> j < i) -> local_at Z (coord_stamp parent) i.
+Proof. exact coord_stamp_local. Qed.
+
+(* necessity of "every loop rank is stamped" *)
+Theorem C16_unstamped_rank_collides :
+  let stamp := coord_stamp (fun _ => None) in
+  st_stamp Z stamp [0] [] (at_ [1; 2]%Z) = st_stamp Z stamp [0] [] (at_ [1; 3]%Z) /\ [1; 2]%Z <> [1; 3]%Z.
+Proof. exact unstamped_rank_collides. Qed.
+
+Theorem C16_relative_without_enclosing_collides :
+  let stamp := coord_stamp (fun i => match i with 1 => Some 0 | _ => None end) in
+  st_stamp Z stamp [] [1] (at_ [0; 1]%Z) = st_stamp Z stamp [] [1] (at_ [4; 5]%Z) /\ [0; 1]%Z <> [4; 5]%Z.
+Proof. exact relative_without_enclosing_collides. Qed.
